@@ -639,7 +639,12 @@ func c01Alphabet(full bool) []c01Pair {
 		pUpdateAF("d", "c", true, bD("_id", i(13)), bD("$inc", bD("items.$[e].q", i(1)), "$set", bD("grid.0.$[]", i(0))), []bson.D{bD("e.k", bD("$gte", i(2)))}),
 		pUpdate("d", "c", false, bD("_id", i(13)), bD("$set", bD("items.0.q", i(7), "grid.1.1", i(8)), "$inc", bD("items.1.k", "x")), false),
 		// operands equal to the stored value in another numeric type: nothing changes
-		pUpdate("d", "c", false, bD("_id", i(2)), bD("$max", bD("a", int64(2)), "$min", bD("a", 2.0)), false),
+		pUpdate("d", "c", false, bD("_id", i(2)), bD("$max", bD("a", int64(2))), false),
+		pUpdate("d", "c", true, bD("a", i(2)), bD("$min", bD("a", 2.0)), false),
+		// malformed updates are rejected whether or not a document matches
+		pUpdate("d", "c", false, bD("_id", i(2)), bD("$max", bD("a", i(1)), "$min", bD("a", i(5))), false),
+		pUpdate("d", "c", true, bD("_id", i(77)), bD("$bogus", bD("a", i(1))), false),
+		pUpdate("d", "c", false, bD("_id", i(77)), bD("$set", i(5)), false),
 		// find-one-and-modify calls that return the new version although nothing changes
 		pFindOneAndUpdate("d", "c", bD("_id", i(1)), bD("$set", bD("b", "x")), nil, true, false),
 		pFindOneAndReplace("d", "c", bD("_id", i(2)), bD("a", i(2), "b", "x"), nil, true, false),
